@@ -68,6 +68,7 @@ func main() {
 func replayAny(o *Out, lines []string) {
 	var h *hand
 	smr := &smRunner{o: o}
+	var rgLines []string
 	e := &evRunner{o: o, prev: map[string]*evPrev{}, res: map[string][]*evPrev{}, rng: NewRng(1)}
 	for _, l := range lines {
 		f := strings.Fields(l)
@@ -91,6 +92,8 @@ func replayAny(o *Out, lines []string) {
 			}
 		case "sm":
 			smr.replay([]string{l})
+		case "rg":
+			rgLines = append(rgLines, l)
 		case "ev":
 			if len(f) == 7 {
 				e.exec(f[1], f[2:])
@@ -107,5 +110,8 @@ func replayAny(o *Out, lines []string) {
 				execPots(o, es)
 			}
 		}
+	}
+	if len(rgLines) > 0 {
+		(&rgRunner{o: o}).replay(rgLines)
 	}
 }
